@@ -241,4 +241,37 @@ theorem layoutME_exact (fmt : Format) (o : WOpts) {w bpd bpb m : Nat} {e : ℤ}
       rw [hzc]; ring
     linear_combination (bpd : ℤ) * hjf2 + hcore - (bpd : ℤ) * hk
 
+/-- zero mantissa (`+0.0`): every layout consists of zero digits only -/
+theorem layoutME_zero (fmt : Format) (o : WOpts) {w bpd bpb : Nat} (e : ℤ)
+    (hr : fmt.mantissaRadix = 2 ^ bpd) (hb : fmt.exponentBase = 2 ^ bpb) (h1 : 1 ≤ bpd) :
+    layoutQ (2 ^ bpd) (2 ^ bpb) (layoutME fmt o w 0 e) = 0 := by
+  have hr2 : 2 ≤ 2 ^ bpd := by
+    calc 2 = 2 ^ 1 := rfl
+      _ ≤ 2 ^ bpd := Nat.pow_le_pow_right (by decide) h1
+  have hds : ∀ e' : ℤ, mantissaDigits w (2 ^ bpd) 0 e' = 0 :: [] := by
+    intro e'
+    unfold mantissaDigits shlW
+    simp only [Nat.zero_shiftLeft, Nat.zero_mod]
+    exact toDigits_zero _ hr2
+  have htr : ∀ e' : ℤ, rtrimZeros (mantissaDigits w (2 ^ bpd) 0 e') = [] := by
+    intro e'; rw [hds]; rfl
+  unfold layoutME
+  simp only [hr, hb, if_true]
+  split_ifs with c1 c2 c3
+  · obtain ⟨j, hsh, _, hexp⟩ := sci_shape fmt o w (2 ^ bpd) 0 e
+      (scaleSciExpHex 0 (fastLog2 (2 ^ bpd)) (fastLog2 (2 ^ bpb))) 0 [] (hds e)
+    rw [layoutQ_of_shape hsh (by rw [hexp, expFactor_two_pow])]
+    simp [rtrimZeros, ofDigits]
+  · obtain ⟨j, hsh, _, hexp⟩ := sci_shape fmt o w (2 ^ bpd) 0 e
+      (scaleSciExp 0 (fastLog2 (2 ^ bpd))) 0 [] (hds e)
+    rw [layoutQ_of_shape hsh (by rw [hexp, expFactor_two_pow])]
+    simp [rtrimZeros, ofDigits]
+  · exact absurd c3 (by decide)
+  · obtain ⟨j, hsh, _, hexp⟩ := pos_shape o w (2 ^ bpd) 0 e 0 _ rfl
+    rw [htr] at hsh
+    have hx : expFactor (2 ^ bpb) (posLayout o w (2 ^ bpd) 0 e 0).exp = (2 : ℚ) ^ (0 : ℤ) := by
+      rw [hexp]; simp [expFactor]
+    rw [layoutQ_of_shape hsh hx]
+    simp [ofDigits]
+
 end LexVerif.Proof.WriteBinaryExact
